@@ -116,5 +116,6 @@ pub fn hist_cfg(prop: &str, run_seed: u64, thorough: bool) -> HistCfg {
         stop_at_first: true,
         harvest_edges: prop == "C15",
         check_from: 0,
+        known: crate::check::known_patterns(),
     }
 }
